@@ -17,6 +17,7 @@ F4 crash at the n-th raw write and F5 ENOSPC/EIO make the checkpoint
 unacknowledged -- the torn file is then only required to load or be rejected
 with ParsingException (C12's oracle) and the run continues in memory.
 '''
+import copy
 import random
 
 from sim.engine import Violation
@@ -35,7 +36,8 @@ KEYWORD_NAMES = ['TABLE', 'CREATE', 'INSERT', 'INTO', 'VALUES', 'ROP', 'REF_ID',
 ODD_PHRASES = ["is employee's boss", "reports to employee's boss", 'has (many)', 'says "hi" to', 'a -- b', 'x, y;', "''",
                ' padded ', 'PHRASE', "it''s"]
 
-store.PROFILES['C01'] = dict(new=5, new_args=2, relate=7, unrelate=2, delete=1.5, setattr=7, checkpoint=4, select=0.5, nav=0.5)
+store.PROFILES['C01'] = dict(new=5, new_args=2, relate=7, unrelate=2, delete=1.5, setattr=7, checkpoint=4, select=0.5, nav=0.5,
+                             swap_attr=0.5)
 
 
 def rename_with_keywords(rng, schema):
@@ -104,10 +106,10 @@ class DiskGen(Gen):
         self.cfg['cr_strings'] = sw.random() < 0.3
         if sw.random() < 0.5:
             rename_with_keywords(self.st['rename'], self.cfg['schema'])
-            self.sch = refstore.Schema(self.cfg['schema'])
+            self.sch = refstore.Schema(copy.deepcopy(self.cfg['schema']))
             _, refgen = store.make_idgen(store._FakeXtuml, self.cfg['idgen'], seed)
             self.ref = refstore.RefStore(self.sch, refgen)
-            self.good_classes = [c for c in self.cfg['schema']['classes'] if not c.get('bad')]
+            self.good_classes = [c for c in self.sch.classes if not c.get('bad')]
         self.restarts = 0
 
     def value_for(self, kind, name):
